@@ -53,6 +53,43 @@ func (P) Exec(line string) string {
 	if f[1] == "par" {
 		return execPar(line)
 	}
+	return watchdog(line, f)
+}
+
+// execWatchdog bounds one case: the slowest case of the unchanged tree takes seconds even on a heavily
+// loaded machine; a (mutated) tree that loops for ever answers "timeout" for that line after ten minutes
+// instead of hanging the check.
+const execWatchdog = 10 * time.Minute
+
+func watchdog(line string, f []string) string {
+	type res struct {
+		out      string
+		panicked any
+	}
+	ch := make(chan res, 1)
+	go func() {
+		defer func() {
+			if r := recover(); r != nil {
+				ch <- res{panicked: r}
+			}
+		}()
+		ch <- res{out: execInner(f)}
+	}()
+	select {
+	case r := <-ch:
+		if r.panicked != nil {
+			panic(r.panicked) // core turns it into the answer "panic"
+		}
+		return r.out
+	case <-time.After(execWatchdog):
+		return "timeout"
+	}
+}
+
+func execInner(f []string) string {
+	if f[1] == "genpanic" {
+		return "generator-panic" // the model answers bad-op: a crashed generator is a visible mismatch
+	}
 	if f[1] == "cfidx" && len(f) == 5 {
 		return execCfidx(f[1:])
 	}
@@ -65,12 +102,23 @@ func (P) Exec(line string) string {
 	return execGcs(f[1:])
 }
 
+// safeGen keeps a generator that calls into the (possibly mutated) tree from taking the harness down:
+// the cases emitted so far stay, the rest of that generator is skipped.
+func safeGen(g *core.Gen, name string, gen func(*core.Gen)) {
+	defer func() {
+		if r := recover(); r != nil {
+			g.Case("generator-panic", false, "C20 genpanic "+name)
+		}
+	}()
+	gen(g)
+}
+
 func (P) Generate(g *core.Gen) {
-	genGcs(g)
-	genBloom(g)
-	genPmt(g)
-	genCfidx(g)
-	genPar(g)
+	safeGen(g, "gcs", genGcs)
+	safeGen(g, "bloom", genBloom)
+	safeGen(g, "pmt", genPmt)
+	safeGen(g, "cfidx", genCfidx)
+	safeGen(g, "par", genPar)
 }
 
 // ---- hidden shared state: independent cases run concurrently
@@ -82,8 +130,6 @@ func (P) Generate(g *core.Gen) {
 // repetitions disagree. The Lean driver answers the sub-lines one after the other.
 
 const parReps = 12
-
-const parTimeout = 60 * time.Second
 
 var parPool = map[string][]string{}
 
@@ -136,6 +182,14 @@ func execOne(sub string) (out string) {
 func execPar(line string) string {
 	subs := strings.Split(strings.TrimPrefix(line, "C20 par "), " ;; ")
 	outs := make([]string, len(subs))
+	// sequential baseline: how long one pass over the sub-lines takes on this machine right now; the
+	// concurrent phase may take a large multiple of it (never less than two minutes) before it is given up,
+	// so that a slow, loaded machine cannot turn the unchanged tree into a "timeout"
+	t0 := time.Now()
+	for _, sub := range subs {
+		_ = execOne(sub)
+	}
+	parTimeout := 2*time.Minute + 100*time.Duration(parReps)*time.Since(t0)
 	var start, done sync.WaitGroup
 	var mu sync.Mutex
 	start.Add(1)
